@@ -1092,6 +1092,15 @@ func RunSession(spec *SessSpec) *Trace {
 			w0 := s.writeCount()
 			full.Commit()
 			env.Log.Add(evlog.Rec{K: "ctl.absorbedcommit", VB: -1, A: uint64(s.writeCount() - w0)})
+		case "rebalancenowrite": // a rebalance (GET /rebalance) right after a completed save with nothing new: how many checkpoint writes does it cause?
+			w0 := s.writeCount()
+			are := env.Log.Count("eh.ARE")
+			hx.HTTPDo("GET", fmt.Sprintf("http://127.0.0.1:%d/rebalance", tr.APIPort), "", 30*time.Second)
+			ok := hx.WaitFor(10*time.Second, func() bool { return env.Log.Count("eh.ARE") > are })
+			time.Sleep(30 * time.Millisecond)
+			if ok {
+				env.Log.Add(evlog.Rec{K: "ctl.rebalancewrites", VB: -1, A: uint64(s.writeCount() - w0)})
+			}
 		case "failpings": // mgmt pings fail from now on (health check rounds start failing)
 			env.Sim.HTTPHook = func(path string) (int, []byte, bool, bool) {
 				if path == "/" {
